@@ -25,6 +25,7 @@ import (
 	"runtime"
 	"sort"
 	"strings"
+	"sync"
 	"sync/atomic"
 	"time"
 
@@ -45,10 +46,10 @@ type Node struct {
 	Preds []int `json:"preds"`          // increasing; 0 = START; ordinary edges (data and control)
 	Ctl   []int `json:"ctl,omitempty"`  // eager: control-only predecessors (WorkflowNode.AddDependency)
 	Dat   []int `json:"dat,omitempty"`  // eager: data-only predecessors (AddInputWithOptions(.., WithNoDirectDependency()))
-	Fail  int   `json:"fail,omitempty"` // 0 ok, 1 error, 2 panic, 3 the state post-handler returns an error, 4 the state pre-handler returns an error (submit fails before the step is started), 5 (batch modes) the body cancels the context of the run and succeeds
+	Fail  int   `json:"fail,omitempty"` // 0 ok, 1 error, 2 panic, 3 the state post-handler returns an error, 4 the state pre-handler returns an error (submit fails before the step is started), 5 (batch modes) the body cancels the context of the run and succeeds, 6 the first execution of the body returns compose.InterruptAndRerun (the run is interrupted and resumed from its checkpoint; the node runs again and succeeds)
 	Pre   bool  `json:"pre,omitempty"`  // the node has a state pre-handler (taskManager.submit runs it: preProcessor)
 	Post  bool  `json:"post,omitempty"` // the node has a state post-handler (taskManager.waitOne runs it: postProcessor)
-	Slow  bool  `json:"slow,omitempty"` // body sleeps 25-40 ms (eager: widen the return window)
+	Slow  bool  `json:"slow,omitempty"` // body sleeps 12-20 ms (eager: widen the return window)
 	Sub   int   `json:"sub,omitempty"`  // the node is a nested Graph with two parallel inner nodes (the body, and a node that returns an empty map after a seeded delay): 1 any-predecessor, 2 all-predecessor inner graph; 3 / 4: the same two with the second inner node feeding nothing (the nested run, a Graph, still has to collect it before it returns)
 }
 
@@ -62,13 +63,16 @@ type Branch struct {
 }
 
 type Case struct {
-	Mode     string   `json:"mode"`  // pregel | dag | eager
-	Nodes    []Node   `json:"nodes"` // layered order; the last one is END (id 1)
-	Branches []Branch `json:"branches,omitempty"`
-	Entry    string   `json:"entry,omitempty"`     // "" = Invoke; "stream" = Stream, the chunks merged by key; "collect" / "transform" = the same two with the input handed in as a one-chunk stream
-	MaxSteps int      `json:"max_steps,omitempty"` // pregel only: compose.WithMaxRunSteps; > 0 marks a case whose graph may have cycles (a node may run in several steps)
-	Seeds    []uint64 `json:"seeds"`               // one run per delay seed
-	Traced   int      `json:"traced"`              // the first Traced runs record the protocol trace
+	Mode      string   `json:"mode"`  // pregel | dag | eager
+	Nodes     []Node   `json:"nodes"` // layered order; the last one is END (id 1)
+	Branches  []Branch `json:"branches,omitempty"`
+	Entry     string   `json:"entry,omitempty"`      // "" = Invoke; "stream" = Stream, the chunks merged by key; "collect" / "transform" = the same two with the input handed in as a one-chunk stream
+	MaxSteps  int      `json:"max_steps,omitempty"`  // pregel only: compose.WithMaxRunSteps; > 0 marks a case whose graph may have cycles (a node may run in several steps)
+	Seeds     []uint64 `json:"seeds"`                // one run per delay seed
+	Traced    int      `json:"traced"`               // the first Traced runs record the protocol trace
+	IntAfter  []int    `json:"int_after,omitempty"`  // compose.WithInterruptAfterNodes: the run is interrupted once these nodes have completed, and resumed from its checkpoint by the next call
+	IntBefore []int    `json:"int_before,omitempty"` // compose.WithInterruptBeforeNodes
+	Together  int      `json:"together,omitempty"`   // >= 2: the first calls of the freshly compiled object are that many calls made at the same time (with the last delay seeds), before the calls made one after the other (with the other seeds)
 }
 
 func key(id int) string {
@@ -161,19 +165,22 @@ type runObs struct {
 	Running      []int    `json:"running,omitempty"`       // bodies started and not finished at return
 	InnerRunning []int    `json:"inner_running,omitempty"` // nested graph nodes an inner node of which is running at return
 	Late, LateBy int      `json:"-"`
+	Ints         int      `json:"ints,omitempty"`        // interrupted calls of the chain (each resumed by the next call)
+	IntRunning   []int    `json:"int_running,omitempty"` // bodies still running at the return of an interrupted call
 	events       []compose.VerifC03Event
 	spawned      int
 	collect      int // completed collector sections (unlockC): a task counts as collected for the protocol model after it
 	recvd        int // tasks the collector received from the hand-off channel
 	wd           time.Duration
-	proto        string // "" or what is wrong with the submit/collect bookkeeping seen in the trace
-	handler      string // "" or what is wrong with the calls of the state handlers (pre/post processors)
-	flag         string // "" or a handed-off task whose error flag is not the outcome of its body
+	proto        string   // "" or what is wrong with the submit/collect bookkeeping seen in the trace
+	handler      string   // "" or what is wrong with the calls of the state handlers (pre/post processors)
+	flag         string   // "" or a handed-off task whose error flag is not the outcome of its body
+	subs         []string // the complete protocol traces of the nested runs (task managers of nested graph nodes), as Gallina terms
 }
 
 type built struct {
 	c       *Case
-	run     func(ctx context.Context, in map[string]any) (map[string]any, error)
+	run     func(ctx context.Context, in map[string]any, opts ...compose.Option) (map[string]any, error)
 	cur     atomic.Value // *runState
 	maxID   int
 	anc     map[int]bool
@@ -193,12 +200,16 @@ func (b *built) body(n *Node) func(ctx context.Context, in map[string]any) (map[
 		}
 		atomic.AddInt32(&rs.starts[n.ID], 1)
 		atomic.StoreInt32(&rs.state[n.ID], 1)
-		// a predecessor that is a nested graph has completed, so its nested run - a Graph: it collects
-		// every task it started - has returned and none of its inner nodes is running any more
-		for _, p := range n.allPreds() {
-			if pn := b.byID[p]; pn != nil && pn.Sub > 0 && atomic.LoadInt32(&rs.inner[p]) > 0 {
-				atomic.StoreInt32(&rs.lateBy, int32(n.ID))
-				atomic.StoreInt32(&rs.late, int32(p))
+		// a control predecessor that is a nested graph has completed, so its nested run - a Graph: it collects
+		// every task it started - has returned and none of its inner nodes is running any more. (Not in a
+		// graph with back edges: there an any-predecessor node may run in the same step as one of its
+		// predecessors, started by another one. Not for a data-only predecessor: the consumer does not wait for it.)
+		if b.c.MaxSteps == 0 {
+			for _, p := range append(append([]int(nil), n.Preds...), n.Ctl...) {
+				if pn := b.byID[p]; pn != nil && pn.Sub > 0 && atomic.LoadInt32(&rs.inner[p]) > 0 {
+					atomic.StoreInt32(&rs.lateBy, int32(n.ID))
+					atomic.StoreInt32(&rs.late, int32(p))
+				}
 			}
 		}
 		var r []uint64
@@ -208,7 +219,7 @@ func (b *built) body(n *Node) func(ctx context.Context, in map[string]any) (map[
 		rs.logMu <- struct{}{}
 		h := mix(rs.seed, uint64(n.ID))
 		if n.Slow {
-			time.Sleep(time.Duration(25+h%15) * time.Millisecond)
+			time.Sleep(time.Duration(12+h%8) * time.Millisecond)
 		} else {
 			switch h % 6 {
 			case 0:
@@ -236,6 +247,10 @@ func (b *built) body(n *Node) func(ctx context.Context, in map[string]any) (map[
 				panic(none)
 			}
 			panic("node panic")
+		case 6:
+			if atomic.LoadInt32(&rs.starts[n.ID]) == 1 {
+				return nil, compose.InterruptAndRerun
+			}
 		case 5:
 			// the run is cancelled from inside a running step: the run loop must still collect the whole
 			// step before it returns the cancellation (batch mode)
@@ -353,6 +368,62 @@ func (c *Case) hasHandlers() bool {
 	return false
 }
 
+// interrupts: the case has a node that interrupts the run (the run then returns an interrupt error and is
+// resumed, from the checkpoint it wrote, by the next call with the same checkpoint id)
+func (c *Case) interrupts() bool {
+	if len(c.IntAfter)+len(c.IntBefore) > 0 {
+		return true
+	}
+	for _, n := range c.Nodes {
+		if n.Fail == 6 {
+			return true
+		}
+	}
+	return false
+}
+
+type memStore struct {
+	mu sync.Mutex
+	m  map[string][]byte
+}
+
+func (s *memStore) Get(_ context.Context, id string) ([]byte, bool, error) {
+	s.mu.Lock()
+	defer s.mu.Unlock()
+	v, ok := s.m[id]
+	return v, ok, nil
+}
+
+func (s *memStore) Set(_ context.Context, id string, cp []byte) error {
+	s.mu.Lock()
+	defer s.mu.Unlock()
+	s.m[id] = append([]byte(nil), cp...)
+	return nil
+}
+
+func (c *Case) interruptOpts() []compose.GraphCompileOption {
+	if !c.interrupts() {
+		return nil
+	}
+	keys := func(ids []int) []string {
+		var ks []string
+		for _, id := range ids {
+			ks = append(ks, key(id))
+		}
+		return ks
+	}
+	opts := []compose.GraphCompileOption{compose.WithCheckPointStore(&memStore{m: map[string][]byte{}})}
+	if len(c.IntAfter) > 0 {
+		opts = append(opts, compose.WithInterruptAfterNodes(keys(c.IntAfter)))
+	}
+	if len(c.IntBefore) > 0 {
+		opts = append(opts, compose.WithInterruptBeforeNodes(keys(c.IntBefore)))
+	}
+	return opts
+}
+
+var chainSeq uint64
+
 func build(c *Case) *built {
 	b := &built{c: c, byID: map[int]*Node{}}
 	for i := range c.Nodes {
@@ -413,6 +484,7 @@ func build(c *Case) *built {
 			if c.Mode == "pregel" && c.MaxSteps > 0 {
 				opts = append(opts, compose.WithMaxRunSteps(c.MaxSteps))
 			}
+			opts = append(opts, c.interruptOpts()...)
 			var r compose.Runnable[map[string]any, map[string]any]
 			r, err = g.Compile(ctx, opts...)
 			if err == nil {
@@ -452,7 +524,7 @@ func build(c *Case) *built {
 				wf.AddBranch(key(br.From), branchOf(br))
 			}
 			var r compose.Runnable[map[string]any, map[string]any]
-			r, err = wf.Compile(ctx)
+			r, err = wf.Compile(ctx, c.interruptOpts()...)
 			if err == nil {
 				b.run = entryOf(c, r)
 			}
@@ -483,6 +555,32 @@ func watchdog() time.Duration {
 }
 
 func (b *built) once(seed uint64, traced bool) *runObs {
+	compose.VerifC03Begin(seed|1, traced)
+	o := b.runOne(seed, traced)
+	compose.VerifC03End()
+	return o
+}
+
+// together: len(seeds) calls of the same compiled object at the same time (untraced: the hook's event log is
+// one per process; the yields of the hand-off windows are on). Every call is a run of its own - its own task
+// manager, channels, state - so each of them must behave exactly as a run made alone.
+func (b *built) together(seeds []uint64) []*runObs {
+	compose.VerifC03Begin(seeds[0]|1, false)
+	obs := make([]*runObs, len(seeds))
+	var wg sync.WaitGroup
+	for i := range seeds {
+		wg.Add(1)
+		go func(i int) {
+			defer wg.Done()
+			obs[i] = b.runOne(seeds[i], false)
+		}(i)
+	}
+	wg.Wait()
+	compose.VerifC03End()
+	return obs
+}
+
+func (b *built) runOne(seed uint64, traced bool) *runObs {
 	rs := &runState{seed: seed, state: make([]int32, b.maxID+1), starts: make([]int32, b.maxID+1), logMu: make(chan struct{}, 1),
 		pre: make([]int32, b.maxID+1), post: make([]int32, b.maxID+1), inner: make([]int32, b.maxID+1)}
 	rs.logMu <- struct{}{}
@@ -490,17 +588,46 @@ func (b *built) once(seed uint64, traced bool) *runObs {
 	rs.cancel = cancel
 	defer cancel()
 	b.cur.Store(rs)
-	compose.VerifC03Begin(seed|1, traced)
 	type ret struct {
-		out map[string]any
-		err error
-		pan any
+		out        map[string]any
+		err        error
+		pan        any
+		ints       int
+		intRunning []int
+		firstTMs   map[int]bool // traced chain with an interrupt: the task managers seen until the first call returned
 	}
 	ch := make(chan ret, 1)
 	go func() {
 		var r ret
 		r.pan = lib.Recover(func() {
-			r.out, r.err = b.run(runCtx, map[string]any{"in": map[string]any{}})
+			var opts []compose.Option
+			if b.c.interrupts() {
+				opts = append(opts, compose.WithCheckPointID(fmt.Sprintf("cp-%d-%d", seed, atomic.AddUint64(&chainSeq, 1))))
+			}
+			in := map[string]any{"in": map[string]any{}}
+			r.out, r.err = b.run(runCtx, in, opts...)
+			// an interrupted run is resumed from its checkpoint by the next call with the same checkpoint id,
+			// until the chain ends with a result or an error that is not an interrupt
+			for limit := len(b.c.Nodes) + 2; r.err != nil && limit > 0; limit-- {
+				if _, ok := compose.ExtractInterruptInfo(r.err); !ok {
+					break
+				}
+				r.ints++
+				if traced && r.firstTMs == nil {
+					r.firstTMs = map[int]bool{}
+					for _, e := range compose.VerifC03Events() {
+						r.firstTMs[e.TM] = true
+					}
+				}
+				// what is still running at the return of the interrupted call: the checkpoint it wrote
+				// cannot hold the result of an execution that has not been collected
+				for id := 2; id <= b.maxID; id++ {
+					if atomic.LoadInt32(&rs.state[id]) == 1 && !containsInt(r.intRunning, id) {
+						r.intRunning = append(r.intRunning, id)
+					}
+				}
+				r.out, r.err = b.run(runCtx, in, opts...)
+			}
 		})
 		ch <- r
 	}()
@@ -523,6 +650,7 @@ func (b *built) once(seed uint64, traced bool) *runObs {
 		}
 	}
 	o.Late, o.LateBy = int(atomic.LoadInt32(&rs.late)), int(atomic.LoadInt32(&rs.lateBy))
+	o.Ints, o.IntRunning = r.ints, r.intRunning
 	var atReturn []compose.VerifC03Event
 	if traced {
 		atReturn = compose.VerifC03Events()
@@ -561,6 +689,16 @@ func (b *built) once(seed uint64, traced bool) *runObs {
 		}
 	}
 	if traced {
+		if r.firstTMs != nil {
+			// a chain of calls: the traced task manager is the one of the first call (the interrupted one)
+			var first []compose.VerifC03Event
+			for _, e := range atReturn {
+				if r.firstTMs[e.TM] {
+					first = append(first, e)
+				}
+			}
+			atReturn = first
+		}
 		main := mainTM(atReturn)
 		sub := map[string]int{}
 		got := map[string]int{}
@@ -576,7 +714,7 @@ func (b *built) once(seed uint64, traced bool) *runObs {
 				// a panic / an error of the node body is that task's error from the moment the task is
 				// handed off (the pushed entry is what the collector will look at)
 				if id, ok := nodeNum(e.Key); ok && o.flag == "" {
-					if n := b.byID[int(id)]; n != nil && (n.Fail == 1 || n.Fail == 2) != e.Err {
+					if n := b.byID[int(id)]; n != nil && (n.Fail == 1 || n.Fail == 2 || n.Fail == 6) != e.Err {
 						if e.Err {
 							o.flag = "task " + e.Key + " was handed off with an error although its body succeeded"
 						} else if n.Fail == 2 {
@@ -588,7 +726,7 @@ func (b *built) once(seed uint64, traced bool) *runObs {
 				}
 			case "recv":
 				if id, ok := nodeNum(e.Key); ok && o.flag == "" {
-					if n := b.byID[int(id)]; n != nil && (n.Fail == 1 || n.Fail == 2) != e.Err {
+					if n := b.byID[int(id)]; n != nil && (n.Fail == 1 || n.Fail == 2 || n.Fail == 6) != e.Err {
 						o.flag = "the collector received task " + e.Key + " with an error flag that is not the outcome of its body"
 					}
 				}
@@ -629,12 +767,12 @@ func (b *built) once(seed uint64, traced bool) *runObs {
 						o.events = append(o.events, e)
 					}
 				}
+				o.subs = subTraces(evs, main)
 				break
 			}
 			time.Sleep(200 * time.Microsecond)
 		}
 	}
-	compose.VerifC03End()
 	<-rs.logMu
 	o.Log = append([]exec(nil), rs.log...)
 	rs.logMu <- struct{}{}
@@ -684,6 +822,99 @@ func mainTM(evs []compose.VerifC03Event) int {
 		}
 	}
 	return -1
+}
+
+// subTraces: the protocol traces of the nested runs recorded beside the main task manager's, one per task manager
+// whose trace is complete - it begins with the hand-over of the two inner tasks x and y, every executor has left the
+// protocol and it ends with the waitOne that finds nothing outstanding (a nested run is a batch run: waitAll). A nested
+// run that is still going on (abandoned by an eager run that has returned) or that began before this run's log did is
+// left out. The inner tasks are 3 (x, the body of the node) and 4 (y); the outcome of a body is read off its push event.
+func subTraces(evs []compose.VerifC03Event, main int) []string {
+	by := map[int][]compose.VerifC03Event{}
+	var order []int
+	for _, e := range evs {
+		if e.TM == main {
+			continue
+		}
+		if _, ok := by[e.TM]; !ok {
+			order = append(order, e.TM)
+		}
+		by[e.TM] = append(by[e.TM], e)
+	}
+	var out []string
+	for _, tm := range order {
+		tr := by[tm]
+		if k := tr[0].Kind; k != "spawn" && k != "sync" || tr[len(tr)-1].Kind != "empty" {
+			continue
+		}
+		id := func(k string) int {
+			switch k {
+			case "x":
+				return 3
+			case "y":
+				return 4
+			}
+			return 0
+		}
+		failed := map[string]bool{}
+		started, left, ok := 0, 0, true
+		for _, e := range tr {
+			switch e.Kind {
+			case "spawn", "sync":
+				started++
+				ok = ok && id(e.Key) != 0
+			case "push":
+				failed[e.Key] = e.Err
+			case "unlockE":
+				left++
+			}
+		}
+		if !ok || started != 2 || left != 2 {
+			continue
+		}
+		var s []string
+		for _, e := range tr {
+			t := id(e.Key)
+			bres := "BOk"
+			if failed[e.Key] {
+				bres = "BErr"
+			}
+			switch e.Kind {
+			case "spawn":
+				s = append(s, fmt.Sprintf("EvSpawn %d %s", t, bres))
+			case "sync":
+				s = append(s, fmt.Sprintf("EvSync %d %s", t, bres))
+			case "syncret":
+				s = append(s, fmt.Sprintf("EvSyncRet %d", t))
+			case "await":
+				s = append(s, "EvAwait")
+			case "empty":
+				s = append(s, "EvEmpty")
+			case "lockE":
+				s = append(s, fmt.Sprintf("EvLockE %d", t))
+			case "push":
+				s = append(s, fmt.Sprintf("EvPush %d %s", t, lib.CoqBool(e.Err)))
+			case "send":
+				s = append(s, fmt.Sprintf("EvSend %d", t))
+			case "full":
+				s = append(s, "EvFull")
+			case "unlockE":
+				s = append(s, fmt.Sprintf("EvUnlockE %d", t))
+			case "recv":
+				s = append(s, fmt.Sprintf("EvRecv %d %s", t, lib.CoqBool(e.Err)))
+			case "lockC":
+				s = append(s, "EvLockC")
+			case "unlockC":
+				s = append(s, "EvUnlockC")
+			default:
+				ok = false
+			}
+		}
+		if ok {
+			out = append(out, "["+strings.Join(s, ";")+"]")
+		}
+	}
+	return out
 }
 
 func lessU(a, b []uint64) bool {
@@ -1111,10 +1342,43 @@ func (engine) Generate(r *lib.Rng, tier string, i int) any {
 		c.Seeds = append(c.Seeds, r.U64()>>1)
 	}
 	c.Traced = 5
+	c.Together = 3
 	if tier == "thorough" {
 		c.Traced = 25
+		c.Together = 4
+	}
+	// all-predecessor Graphs and Workflows without branches and special edges, one in five: one or two nodes
+	// interrupt the run (interrupt after / before the node: compile options; or the node's first execution
+	// answers InterruptAndRerun); the call returns an interrupt error after it has collected everything it
+	// started - an eager run too - and the next call resumes from the checkpoint. Such a case has no failing
+	// node, no state handlers, no nested graph (those dimensions are generated without interrupts).
+	if nCtl, nDat := c.specialEdges(); c.Mode != "pregel" && len(c.Branches) == 0 && nCtl+nDat == 0 && (r.Chance(1, 5) || c.Mode == "eager" && r.Chance(1, 4)) {
+		for k := range c.Nodes {
+			c.Nodes[k].Fail, c.Nodes[k].Pre, c.Nodes[k].Post, c.Nodes[k].Sub = 0, false, false, 0
+		}
+		for _, id := range pickSome(r, idsOf(c), r.Range(1, 2)) {
+			switch r.Intn(3) {
+			case 0:
+				c.IntAfter = append(c.IntAfter, id)
+			case 1:
+				c.IntBefore = append(c.IntBefore, id)
+			default:
+				setFail(c, id, 6)
+			}
+		}
 	}
 	return c
+}
+
+// idsOf: the nodes of the case, END excluded
+func idsOf(c *Case) []int {
+	var ids []int
+	for _, n := range c.Nodes {
+		if n.ID != idEnd {
+			ids = append(ids, n.ID)
+		}
+	}
+	return ids
 }
 
 func layerOf(layers [][]int, id int) int {
@@ -1239,6 +1503,8 @@ func contains(xs []int, x int) bool {
 
 func sortInts(xs []int) []int { sort.Ints(xs); return xs }
 
+func containsInt(xs []int, x int) bool { return contains(xs, x) }
+
 func dedup(xs []int) []int {
 	var out []int
 	for i, x := range xs {
@@ -1279,23 +1545,25 @@ func build0(c *Case) map[int]bool {
 
 // entryOf: the public entry point the case goes through. Stream returns a stream of maps with
 // disjoint keys (one chunk per predecessor of END); the harness merges them into one map.
-func entryOf(c *Case, r compose.Runnable[map[string]any, map[string]any]) func(ctx context.Context, in map[string]any) (map[string]any, error) {
+func entryOf(c *Case, r compose.Runnable[map[string]any, map[string]any]) func(ctx context.Context, in map[string]any, opts ...compose.Option) (map[string]any, error) {
 	switch c.Entry {
 	case "collect":
-		return func(ctx context.Context, in map[string]any) (map[string]any, error) {
-			return r.Collect(ctx, schema.StreamReaderFromArray([]map[string]any{in}))
+		return func(ctx context.Context, in map[string]any, opts ...compose.Option) (map[string]any, error) {
+			return r.Collect(ctx, schema.StreamReaderFromArray([]map[string]any{in}), opts...)
 		}
 	case "stream", "transform":
 	default:
-		return func(ctx context.Context, in map[string]any) (map[string]any, error) { return r.Invoke(ctx, in) }
+		return func(ctx context.Context, in map[string]any, opts ...compose.Option) (map[string]any, error) {
+			return r.Invoke(ctx, in, opts...)
+		}
 	}
-	return func(ctx context.Context, in map[string]any) (map[string]any, error) {
+	return func(ctx context.Context, in map[string]any, opts ...compose.Option) (map[string]any, error) {
 		var sr *schema.StreamReader[map[string]any]
 		var err error
 		if c.Entry == "transform" {
-			sr, err = r.Transform(ctx, schema.StreamReaderFromArray([]map[string]any{in}))
+			sr, err = r.Transform(ctx, schema.StreamReaderFromArray([]map[string]any{in}), opts...)
 		} else {
-			sr, err = r.Stream(ctx, in)
+			sr, err = r.Stream(ctx, in, opts...)
 		}
 		if err != nil {
 			return nil, err
@@ -1391,7 +1659,7 @@ func coqTrace(b *built, evs []compose.VerifC03Event) string {
 	bres := func(id uint64) string {
 		if n, ok := b.byID[int(id)]; ok {
 			switch n.Fail {
-			case 1:
+			case 1, 6: // 6: the traced task manager is the one of the first call, where the node answers InterruptAndRerun
 				return "BErr"
 			case 2:
 				return "BPanic"
@@ -1544,6 +1812,8 @@ type obsOut struct {
 	Uncoll    int      `json:"runs_with_running_nodes_at_return"`
 	Traces    int      `json:"traces"`
 	Events    int      `json:"events"`
+	SubTraces int      `json:"nested_traces,omitempty"`     // complete protocol traces of nested runs sent to the LTS
+	Ints      int      `json:"interrupted_calls,omitempty"` // calls that returned an interrupt and were resumed by the next call, over all runs
 	BuildErr  string   `json:"build_error,omitempty"`
 	FirstDiff string   `json:"first_difference,omitempty"`
 }
@@ -1578,11 +1848,11 @@ func (engine) Run(ci any) lib.Result {
 	}
 	var first *runObs
 	var distinct []*runObs
-	var traces []string
+	var traces, subs []string
 	out := obsOut{}
 	nfail := 0
 	for _, n := range c.Nodes {
-		if n.Fail != 0 {
+		if n.Fail != 0 && n.Fail != 6 {
 			nfail++
 		}
 	}
@@ -1595,13 +1865,10 @@ func (engine) Run(ci any) lib.Result {
 	leftNonAnc, leftAtErr := false, false
 	failNonAnc := c.Mode == "eager" && hasFailNonAnc(b)
 	hung := false
-	for k, seed := range c.Seeds {
-		if hung || atomic.LoadInt32(&hangingCases) >= 3 && k >= 2 {
-			break
-		}
-		traced := k < c.Traced
-		o := b.once(seed, traced)
+	var firstSeed uint64
+	observe := func(seed uint64, traced bool, o *runObs) {
 		out.Runs++
+		out.Ints += o.Ints
 		if o.Class == "hang" {
 			hung = true
 			atomic.AddInt32(&hangingCases, 1)
@@ -1638,6 +1905,14 @@ func (engine) Run(ci any) lib.Result {
 			fail("returned-before-nodes-finished",
 				fmt.Sprintf("delay seed %d: the nested graph node n%d had completed (its successor n%d was started) while one of its inner nodes was still running: the nested run returned before it had collected every task it started", seed, o.Late, o.LateBy))
 		}
+		// a call that returns an interrupt has written the checkpoint the next call resumes from: every
+		// execution it started must have been collected by then (in eager mode too: the run loop waits for
+		// all outstanding tasks before it builds the checkpoint), or its result is in no channel and no
+		// pending input and is lost
+		if len(o.IntRunning) > 0 {
+			fail("returned-before-nodes-finished",
+				fmt.Sprintf("delay seed %d: an interrupted call of the %s run returned while node(s) %v were still running: the checkpoint it wrote cannot hold their results", seed, c.Mode, o.IntRunning))
+		}
 		if o.proto != "" {
 			fail("collect-bookkeeping", fmt.Sprintf("delay seed %d: %s", seed, o.proto))
 		}
@@ -1650,8 +1925,14 @@ func (engine) Run(ci any) lib.Result {
 		if traced {
 			out.Traces++
 			out.Events += len(o.events)
+			out.SubTraces += len(o.subs)
+			subs = append(subs, o.subs...)
 			if c.Mode != "eager" && o.spawned != o.recvd {
 				fail("uncollected", fmt.Sprintf("batch run returned with %d of %d submitted tasks collected", o.recvd, o.spawned))
+			}
+			if c.Mode == "eager" && o.Ints > 0 && o.spawned != o.recvd {
+				// (the traced task manager is the one of the first call of the chain, the interrupted one)
+				fail("uncollected", fmt.Sprintf("eager run returned an interrupt with %d of %d submitted tasks collected", o.recvd, o.spawned))
 			}
 			if o.Class != "hang" && o.recvd != o.collect {
 				// the mechanism the property is anchored on: the collector receives one task and tops the
@@ -1660,7 +1941,10 @@ func (engine) Run(ci any) lib.Result {
 				fail("collector-top-up-skipped", fmt.Sprintf("the collector received %d task(s) but refilled the hand-off channel under the mutex only %d time(s): a finished task left on the overflow list is then never handed over", o.recvd, o.collect))
 			}
 			// the whole traced run: trace, outstanding tasks at the return, outcome, every execution started
-			traces = append(traces, fmt.Sprintf("mkrun %s %d%%nat (%s) %s", coqTrace(b, o.events), o.spawned-o.collect, o.coqOut(), coqLog(o.Log)))
+			// (a chain whose first call started nothing - interrupt before a node of the first step - has no trace)
+			if !(c.interrupts() && len(o.events) == 0) {
+				traces = append(traces, fmt.Sprintf("mkrun %s %d%%nat (%s) %s", coqTrace(b, o.events), o.spawned-o.collect, o.coqOut(), coqLog(o.Log)))
+			}
 		}
 		// comparable projection of this run
 		cmpLog := o.Log
@@ -1673,11 +1957,11 @@ func (engine) Run(ci any) lib.Result {
 		}
 		o.Log = cmpLog
 		if first == nil {
-			first = o
+			first, firstSeed = o, seed
 			distinct = append(distinct, o)
 		} else if !sameVal(first, o) || !sameLog(first.Log, o.Log) {
 			if out.FirstDiff == "" {
-				out.FirstDiff = fmt.Sprintf("seed %d: %s %v vs seed %d: %s %v", c.Seeds[0], first.Class, first.Val, seed, o.Class, o.Val)
+				out.FirstDiff = fmt.Sprintf("seed %d: %s %v vs seed %d: %s %v", firstSeed, first.Class, first.Val, seed, o.Class, o.Val)
 			}
 			dup := false
 			for _, d := range distinct {
@@ -1699,17 +1983,36 @@ func (engine) Run(ci any) lib.Result {
 				if known {
 					fail("eager-result-depends-on-failing-non-ancestor", fmt.Sprintf(
 						"eager run: result is a %s with delay seed %d and a %s with delay seed %d (a failing node that does not feed END races with END)",
-						className(first.Class), c.Seeds[0], className(o.Class), seed))
+						className(first.Class), firstSeed, className(o.Class), seed))
 				} else {
 					what := "result"
 					if sameVal(first, o) {
 						what = "execution multiset"
 					}
 					fail("order-dependent-"+strings.ReplaceAll(what, " ", "-"),
-						fmt.Sprintf("%s differs between delay seeds %d and %d", what, c.Seeds[0], seed))
+						fmt.Sprintf("%s differs between delay seeds %d and %d", what, firstSeed, seed))
 				}
 			}
 		}
+	}
+	// the first calls of the freshly compiled object are made at the same time (with the last Together delay
+	// seeds; the other seeds are used below for calls made one after the other): every call is a run of its own,
+	// so it must give the result and the executions of every other run of the case, collect what it started, not hang
+	alone := c.Seeds
+	if n := c.Together; n >= 2 && n < len(c.Seeds) {
+		tg := c.Seeds[len(c.Seeds)-n:]
+		alone = c.Seeds[:len(c.Seeds)-n]
+		for i, o := range b.together(tg) {
+			observe(tg[i], false, o)
+		}
+		res.Tags = append(res.Tags, fmt.Sprintf("together:%d", n))
+	}
+	for k, seed := range alone {
+		if hung || atomic.LoadInt32(&hangingCases) >= 3 && k >= 2 {
+			break
+		}
+		traced := k < c.Traced
+		observe(seed, traced, b.once(seed, traced))
 	}
 	if first != nil {
 		out.Class, out.Val, out.Log = first.Class, first.Val, first.Log
@@ -1770,18 +2073,24 @@ func (engine) Run(ci any) lib.Result {
 		}
 	}
 	switch {
+	case c.interrupts():
+		// interrupted and resumed runs are outside the order-side models: the direct oracles (same result and
+		// feeding executions under every delay seed, everything collected at an interrupt return) and the
+		// protocol trace of the first call of the chain
+		res.CoqTerm = fmt.Sprintf("mkcase %d 0%%nat [] [] [] [] [%s] [%s] [%s]", modeN, strings.Join(obsS, ";"), strings.Join(traces, ";\n  "), strings.Join(subs, ";\n  "))
+		res.Tags = append(res.Tags, "interrupt:yes")
 	case len(c.Branches) == 0 && nCtl+nDat == 0:
-		res.CoqTerm = fmt.Sprintf("mkcase %d %d%%nat %s [] [] [] [%s] [%s]", modeN, c.MaxSteps, c.coqGraph(), strings.Join(obsS, ";"), strings.Join(traces, ";\n  "))
+		res.CoqTerm = fmt.Sprintf("mkcase %d %d%%nat %s [] [] [] [%s] [%s] [%s]", modeN, c.MaxSteps, c.coqGraph(), strings.Join(obsS, ";"), strings.Join(traces, ";\n  "), strings.Join(subs, ";\n  "))
 		if c.MaxSteps > 0 {
 			res.Tags = append(res.Tags, "cyclic:yes")
 		}
 	case c.Mode == "eager":
 		// Workflow with branches, control-only or data-only edges: Model/EagerSkip.v
-		res.CoqTerm = fmt.Sprintf("mkcase %d 0%%nat %s %s %s %s [%s] [%s]", modeN, c.coqGraph(), c.coqBranches(), c.coqEdges(false), c.coqEdges(true), strings.Join(obsS, ";"), strings.Join(traces, ";\n  "))
+		res.CoqTerm = fmt.Sprintf("mkcase %d 0%%nat %s %s %s %s [%s] [%s] [%s]", modeN, c.coqGraph(), c.coqBranches(), c.coqEdges(false), c.coqEdges(true), strings.Join(obsS, ";"), strings.Join(traces, ";\n  "), strings.Join(subs, ";\n  "))
 		res.Tags = append(res.Tags, fmt.Sprintf("branches:%d", len(c.Branches)))
 	default:
 		// batch mode with branches is outside the order-side models: only the protocol traces go to Coq
-		res.CoqTerm = fmt.Sprintf("mkcase %d 0%%nat [] [] [] [] [%s] [%s]", modeN, strings.Join(obsS, ";"), strings.Join(traces, ";\n  "))
+		res.CoqTerm = fmt.Sprintf("mkcase %d 0%%nat [] [] [] [] [%s] [%s] [%s]", modeN, strings.Join(obsS, ";"), strings.Join(traces, ";\n  "), strings.Join(subs, ";\n  "))
 		res.Tags = append(res.Tags, fmt.Sprintf("branches:%d", len(c.Branches)))
 	}
 	return res
@@ -1800,7 +2109,7 @@ func className(c string) string {
 
 func hasFailNonAnc(b *built) bool {
 	for _, n := range b.c.Nodes {
-		if n.Fail != 0 && !b.anc[n.ID] {
+		if n.Fail != 0 && n.Fail != 6 && !b.anc[n.ID] {
 			return true
 		}
 	}
